@@ -272,6 +272,8 @@ class Engine:
             return V(t, v.t.val(v.term))
         if isinstance(t, TOpt):
             if isinstance(v.t, TOpt):
+                if v.t.inner == INT and t.inner == FLAGS:
+                    return V(t, z3.If(v.t.is_none(v.term), t.none(), t.some(z3.Int2BV(v.t.val(v.term), 16))))
                 raise Unsupported(f'{v.t.name} where {t.name} expected', node)
             inner = self.coerce(v, t.inner, node)
             return V(t, t.some(inner.term))
@@ -388,6 +390,10 @@ class Engine:
             return self.coerce(a, REAL), self.coerce(b, REAL)
         if {a.t, b.t} == {INT, FLAGS}:
             return self.coerce(a, FLAGS), self.coerce(b, FLAGS)
+        for x, y in ((a, b), (b, a)):
+            if isinstance(x.t, TOpt) and {x.t.inner, y.t} == {INT, FLAGS} or (isinstance(x.t, TOpt) and isinstance(y.t, TOpt) and {x.t.inner, y.t.inner} == {INT, FLAGS}):
+                a2, b2 = self.coerce(a, TOpt(FLAGS), node), self.coerce(b, TOpt(FLAGS), node)
+                return a2, b2
         if {a.t, b.t} == {INT, BOOL}:
             return self.coerce(a, INT), self.coerce(b, INT)
         if a.t == CPS and b.t == STR:
@@ -1064,6 +1070,16 @@ class Engine:
             outs0 = outs0 + self.flush_raises(st)
             itv = V(itv.t.inner, itv.t.val(itv.term))
         var = s.target.id if isinstance(s.target, ast.Name) else None
+        if isinstance(s.target, ast.Name) and isinstance(s.iter, ast.Name):
+            k_, spec_ = self.loop_spec(s, var)
+            if spec_.get('iter_text'):
+                # `for c in node` where node is a text node (a str subclass): its characters.  The contract states that the iterated
+                # name holds a NavigableString here; that is an obligation.
+                nv = self.ev(s.iter, st)
+                tr = self.world.tree
+                if isinstance(nv, V) and nv.t == tr.NODE:
+                    self.oblige_raw(st, 'iter-text', tr.is_navstr(nv.term), f'{s.iter.id} is a text node where its characters are iterated')
+                    itv = V(STR, tr.text(nv.term))
         enum = False
         if isinstance(itv, VPy) and isinstance(itv.obj, tuple) and itv.obj and itv.obj[0] == 'enumerate':
             enum = True
@@ -1074,10 +1090,8 @@ class Engine:
         k, spec = self.loop_spec(s, var)
         if not (isinstance(itv, V) and isinstance(itv.t, (TSeq,)) or (isinstance(itv, V) and itv.t in (CPS, STR))):
             raise Unsupported(f'iteration over {itv!r}', s)
-        if itv.t == STR:
-            raise Unsupported('iteration over an SMT string (declare the parameter as cps)', s)
         seq = itv
-        et = INT if seq.t == CPS else seq.t.elem
+        et = STR if seq.t == STR else (INT if seq.t == CPS else seq.t.elem)
         iname, sname = f'_i{k}', f'_seq{k}'
         st.env[sname] = seq
         st.env[iname] = V(INT, z3.IntVal(0))
@@ -1095,7 +1109,7 @@ class Engine:
         se.pc.append(i == z3.Length(seq.term))
         sb = s2.copy()
         sb.pc.append(i < z3.Length(seq.term))
-        elem = V(et, seq.term[i])
+        elem = V(et, seq.term[i]) if seq.t != STR else V(STR, z3.SubString(seq.term, i, 1))    # iterating a str yields its characters
         if seq.t == CPS:
             # iterating a str yields one-character strings; they are represented by their code point (cps of len 1)
             elem = V(CPS, z3.Unit(seq.term[i]))
